@@ -552,7 +552,43 @@ fn run(t: &Typed) -> Result<(Vec<StepOut>, Option<TermOut>), String> {
     .and_then(|r| r)
 }
 
+fn check_std_audit(t: &Typed, name: &str) -> (Vec<Violation>, RunStats) {
+    let mut st = RunStats::default();
+    let mut viol = vec![];
+    st.executions += t.len as u64 + 1;
+    match audit_std(name, t.len) {
+        Err(msg) => {
+            if msg.starts_with(HARNESS) {
+                st.harness_error = Some(msg);
+            } else {
+                st.ended_early = Some(msg);
+            }
+        },
+        Ok(None) => st.hit("std_adaptor_not_declared_trusted"),
+        Ok(Some(None)) => st.hit("std_adaptor_declared_trusted_and_exact"),
+        Ok(Some(Some((cut, hi, n)))) => viol.push(Violation {
+            props: vec!["C09"],
+            oracle: "H1",
+            stage: format!("declared-trusted:{name}"),
+            detail: format!(
+                "std `{name}` over a container iterator of {} items is declared TrustedLen by the library; after {cut} pulls its upper bound is {hi:?} but {n} items follow",
+                t.len
+            ),
+        }),
+    }
+    let sig = format!("stdaudit|{name}|{}", t.len.min(6));
+    let mut h = 0xcbf2_9ce4_8422_2325u64;
+    fnv(&mut h, sig.as_bytes());
+    st.signature = h;
+    st.digest = h ^ viol.len() as u64;
+    st.nontrivial = true;
+    (viol, st)
+}
+
 pub fn check_typed(t: &Typed) -> (Vec<Violation>, RunStats) {
+    if let Some(name) = t.root.strip_prefix("std:") {
+        return check_std_audit(t, name);
+    }
     let mut st = RunStats::default();
     let mut viol = vec![];
     let de = ROOTS.iter().find(|(n, _, _)| *n == t.root).map(|(_, d, c)| (*d, *c));
@@ -701,6 +737,11 @@ pub fn gen_typed(rng: &mut Rng, max_len: usize) -> Typed {
 /// every root x length x single step (every k) x terminal, and every ordered pair of steps
 pub fn directed(max_len: usize) -> Vec<Typed> {
     let mut out = vec![];
+    for name in STD_ADAPTORS {
+        for len in 0..=max_len + 3 {
+            out.push(Typed { root: format!("std:{name}"), len, param: 0, script: vec![], terminal: TTerm::Drain });
+        }
+    }
     for (root, de, cl) in ROOTS {
         for len in 0..=max_len {
             let mut singles = vec![];
@@ -769,4 +810,121 @@ pub fn directed(max_len: usize) -> Vec<Typed> {
         }
     }
     out
+}
+
+
+// ---------------------------------------------------------------------------------------
+// Audit of the std adaptors the library declares trusted-length. Whether `Filter<..>` (say) is
+// `TrustedLen` is decided at compile time by the library's `unsafe impl` lines; the audit uses
+// inherent-method-before-trait-method resolution to find out, and if an adaptor IS declared
+// trusted it must hold what it announces at every cut point, like every other hand-out.
+
+pub struct Audit<I, F: Fn() -> I>(pub F);
+
+/// (cut, upper bound, items that then follow) for the first disagreement, or None
+pub type AuditOut = Option<Option<(usize, Option<usize>, usize)>>;
+
+impl<I: TrustedLen, F: Fn() -> I> Audit<I, F> {
+    /// chosen when `I: TrustedLen` holds
+    pub fn run(&self, max_cut: usize) -> AuditOut {
+        for cut in 0..=max_cut {
+            let mut it = (self.0)();
+            for _ in 0..cut {
+                if it.next().is_none() {
+                    break;
+                }
+            }
+            let hint = it.size_hint();
+            let mut n = 0usize;
+            while it.next().is_some() {
+                n += 1;
+                if n > 5000 {
+                    break;
+                }
+            }
+            if hint.1 != Some(n) {
+                return Some(Some((cut, hint.1, n)));
+            }
+        }
+        Some(None)
+    }
+}
+
+pub trait AuditFallback {
+    /// chosen when the adaptor is not declared trusted-length: nothing to hold it to
+    fn run(&self, _max_cut: usize) -> AuditOut {
+        None
+    }
+}
+impl<I, F: Fn() -> I> AuditFallback for Audit<I, F> {}
+
+pub const STD_ADAPTORS: [&str; 22] = [
+    "filter",
+    "filter_map",
+    "take_while",
+    "skip_while",
+    "map_while",
+    "flat_map",
+    "flatten",
+    "scan_stopping_early",
+    "successors",
+    "from_fn",
+    "skip",
+    "inspect",
+    "fuse",
+    "peekable",
+    "chain",
+    "zip_unequal",
+    "enumerate",
+    "rev",
+    "step_by",
+    "take",
+    "range_inclusive_step",
+    "once_chain_repeat_n",
+];
+
+pub fn audit_std(name: &str, len: usize) -> Result<AuditOut, String> {
+    let d = data(len);
+    let d = &d;
+    let keep = |i: &f64| !(i.is_nan() || (*i as i64) % 2 == 1);
+    guarded(|| {
+        Ok(match name {
+            "filter" => Audit(|| d.titer().filter(keep)).run(len),
+            "filter_map" => Audit(|| d.titer().filter_map(|x| if keep(&x) { Some(x) } else { None })).run(len),
+            "take_while" => Audit(|| d.titer().take_while(|x| *x < 2.0)).run(len),
+            "skip_while" => Audit(|| d.titer().skip_while(|x| *x < 2.0)).run(len),
+            "map_while" => Audit(|| d.titer().map_while(|x| if x < 2.0 { Some(x) } else { None })).run(len),
+            "flat_map" => Audit(|| d.titer().flat_map(|x| if keep(&x) { Some(x) } else { None })).run(len),
+            "flatten" => Audit(|| d.titer().map(|x| if keep(&x) { Some(x) } else { None }).flatten()).run(len),
+            // NOTE: the library declares Scan trusted; that is only sound while the closure never
+            // stops (DESIGN 8.3). A stopping closure is the caller's doing and is not audited.
+            "scan_stopping_early" => None,
+            "successors" => Audit(|| std::iter::successors(Some(0usize), |k| if *k + 1 < d.len() { Some(*k + 1) } else { None })).run(len),
+            "from_fn" => {
+                Audit(|| {
+                    let mut k = 0usize;
+                    let n = d.len();
+                    std::iter::from_fn(move || {
+                        k += 1;
+                        if k <= n { Some(k) } else { None }
+                    })
+                })
+                .run(len)
+            },
+            "skip" => Audit(|| d.titer().skip(2)).run(len),
+            "inspect" => Audit(|| d.titer().inspect(|_| ())).run(len),
+            "fuse" => Audit(|| d.titer().fuse()).run(len),
+            "peekable" => Audit(|| d.titer().peekable()).run(len),
+            "chain" => Audit(|| d.titer().chain(d.titer().take(2))).run(len + 2),
+            "zip_unequal" => Audit(|| d.titer().zip(d.titer().skip(1).take(3))).run(len),
+            "enumerate" => Audit(|| d.titer().enumerate()).run(len),
+            "rev" => Audit(|| d.titer().rev()).run(len),
+            "step_by" => Audit(|| d.titer().step_by(3)).run(len),
+            "take" => Audit(|| d.titer().take(len / 2 + 1)).run(len),
+            "range_inclusive_step" => Audit(|| (0..=len as i32).step_by(2)).run(len),
+            "once_chain_repeat_n" => Audit(|| std::iter::once(1.0).chain(std::iter::repeat_n(2.0, len))).run(len + 1),
+            other => return Err(format!("{HARNESS} unknown std adaptor {other}")),
+        })
+    })
+    .and_then(|r| r)
 }
